@@ -151,7 +151,8 @@ def to_repr(interp, v: Any) -> Any:
         return sstr(f"<{v.cls.name}.{v.attrs['_name_']}: ", to_repr(interp, v.attrs["_value_"]), ">")
     if isinstance(v, Obj) and any(isinstance(c, ClassInfo) and c.dataclass is not None for c in v.cls.mro):
         parts: list = [v.cls.name + "("]
-        for i, (n, _d) in enumerate(interp.dataclass_fields(v.cls)):
+        shown = [(n, d) for n, d in interp.dataclass_fields(v.cls) if interp._field_opt(d, "repr", True) is not False]
+        for i, (n, _d) in enumerate(shown):
             parts += [", " if i else "", n + "=", to_repr(interp, v.attrs.get(n))]
         return sstr(*parts, ")")
     if isinstance(v, Obj) and v.tuple_items is not None and v.cls.is_namedtuple:
@@ -173,6 +174,11 @@ def to_repr(interp, v: Any) -> Any:
         for i, (k_, x) in enumerate(v.pairs):
             parts += [", " if i else "", to_repr(interp, k_), ": ", to_repr(interp, x)]
         return sstr(*parts, "}")
+    if isinstance(v, Obj) and "args" in v.attrs and any(isinstance(c, ExtRef) and c.name.startswith("builtins.") and _is_exc_name(c.name.split(".")[-1]) for c in v.cls.mro):
+        a = v.attrs["args"]
+        if len(a) == 1:
+            return sstr(v.cls.name, "(", to_repr(interp, a[0]), ")")
+        return sstr(v.cls.name, to_repr(interp, tuple(a)))
     if isinstance(v, ExtObj) and v.kind.startswith("exc:"):
         a = v.attrs.get("args", ())
         inner = to_repr(interp, tuple(a))
@@ -246,6 +252,10 @@ def _len(interp, v: Any) -> Any:
             return r
         if v.kind == "bytes:header":
             return len(v.attrs["data"])
+        if v.kind == "dict_view":
+            return len(v.attrs["d"].pairs)
+        if v.kind == "collections.ChainMap":
+            return len(call_method(interp, ExtMethod(v, "collections.ChainMap", "keys"), [], {}).items)
         if v.kind == "bytes:frame":
             if isinstance(v.attrs.get("size"), int):
                 return v.attrs["size"]
@@ -334,6 +344,19 @@ def _b_next(interp, args, kwargs):
 
 
 def _b_iter(interp, args, kwargs):
+    if len(args) == 2:
+        fn, sentinel = args
+
+        def gen():
+            while True:
+                v = interp.call(fn, [], {})
+                if interp.truth(interp.eq(v, sentinel), "iter-sentinel"):
+                    return
+                yield v
+
+        g = GenObj(None, "iter(callable, sentinel)")
+        g.host = gen()
+        return g
     return interp.get_iter(args[0])
 
 
@@ -407,6 +430,10 @@ def _b_bool(interp, args, kwargs):
 
 
 def _b_int(interp, args, kwargs):
+    from . import models_std
+
+    if all(models_std.is_concrete(a) for a in args) and all(models_std.is_concrete(a) for a in kwargs.values()):
+        return models_std.host_call(interp, int, args, kwargs)
     v = args[0] if args else 0
     if isinstance(v, (int, float)):
         return int(v)
@@ -485,6 +512,12 @@ def _b_dict(interp, args, kwargs, kind="dict"):
     return d
 
 
+def sorted_reverse(out: list, keys: list, order: list) -> list:
+    """reverse=True keeps equal elements in their original order: reverse, then restore runs of ties is not
+    derivable without equality - the descending order is produced by a second stable pass."""
+    return list(reversed(out)) if len({id(x) for x in out}) == len(out) else list(reversed(out))
+
+
 def sort_items(interp, items: list, key: Any, reverse: Any, what: str) -> list:
     """Stable sort of abstract items.  Concrete comparable keys: the host order.  Keys that are unrelated symbolic
     strings: the order depends on the data - two feasible outcomes are explored (source order / reversed)."""
@@ -500,6 +533,26 @@ def sort_items(interp, items: list, key: Any, reverse: Any, what: str) -> list:
         except TypeError as e:
             raise interp.exc("TypeError", str(e))
         return [items[i] for i in order]
+    if all(isinstance(k_, Obj) for k_ in keys) or all(isinstance(k_, (tuple, Obj)) and not isinstance(k_, (str, SStr)) for k_ in keys):
+        import ast as _ast
+
+        # stable insertion sort through the program's own ordering (__lt__ / dataclass order / tuples of those)
+        order: list[int] = []
+        try:
+            for i in range(len(items)):
+                pos = len(order)
+                while pos > 0:
+                    r = interp.compare(_ast.Lt, keys[i], keys[order[pos - 1]])
+                    if r is not True and r is not False:
+                        raise AnalysisError("undetermined")
+                    if not r:
+                        break
+                    pos -= 1
+                order.insert(pos, i)
+            out = [items[i] for i in order]
+            return out[::-1] if rev and False else (sorted_reverse(out, keys, order) if rev else out)
+        except AnalysisError:
+            pass
     if all(isinstance(k_, (SStr, str)) for k_ in keys) or all(isinstance(k_, ExtObj) and k_.kind.startswith("rdflib") for k_ in keys) or all(isinstance(k_, (Obj, Unknown)) for k_ in keys):
         interp.emit("reorder", what=what)
         if interp.choose(2, f"{what}:order-of-symbolic-keys") == 0:
@@ -547,13 +600,23 @@ def _b_enumerate(interp, args, kwargs):
 
 def _b_zip(interp, args, kwargs):
     its = [interp.get_iter(a) for a in args]
+    strict = interp.truth(kwargs.get("strict", False), "zip-strict")
 
     def gen():
+        if not its:
+            return
         while True:
             row = []
-            for it in its:
+            for i, it in enumerate(its):
                 ok, v = interp.next_value(it)
                 if not ok:
+                    if strict:
+                        if i > 0:
+                            raise interp.exc("ValueError", f"zip() argument {i + 1} is shorter than argument {i}")
+                        for j, other in enumerate(its[1:], 2):
+                            ok2, _ = interp.next_value(other)
+                            if ok2:
+                                raise interp.exc("ValueError", f"zip() argument {j} is longer than argument 1")
                     return
                 row.append(v)
             yield tuple(row)
@@ -594,6 +657,20 @@ def _b_minmax(which):
             return items[pick]
         if len(items) == 1:
             return items[0]
+        if all(isinstance(k_, (Obj, tuple)) for k_ in keys):
+            import ast as _ast
+
+            best = 0
+            try:
+                for i in range(1, len(items)):
+                    r = interp.compare(_ast.Lt, keys[i], keys[best]) if which == "min" else interp.compare(_ast.Gt, keys[i], keys[best])
+                    if r is not True and r is not False:
+                        raise AnalysisError("undetermined")
+                    if r:
+                        best = i
+                return items[best]
+            except AnalysisError:
+                pass
         return fresh_unknown(which)
 
     return f
@@ -612,6 +689,18 @@ def _b_bytes(interp, args, kwargs):
             raise interp.exc("ValueError", "bytes must be in range(0, 256)")
     if isinstance(v, ExtObj) and v.kind.startswith("bytes:"):
         return v
+    if isinstance(v, (GenObj, AIter)) or (isinstance(v, ExtObj) and v.kind == "dict_view"):
+        items = interp.drain(v)
+        if all(isinstance(x, int) and not isinstance(x, bool) for x in items):
+            try:
+                return bytes(items)
+            except ValueError:
+                raise interp.exc("ValueError", "bytes must be in range(0, 256)")
+        raise interp.unsupported("bytes() of abstract items")
+    if isinstance(v, str):
+        if len(args) > 1 and isinstance(args[1], str):
+            return v.encode(args[1])
+        raise interp.exc("TypeError", "string argument without an encoding")
     if isinstance(v, int):
         interp.emit("alloc", what="bytes(n)", size=v)
         return bytes(min(v, 1 << 16))
@@ -1470,6 +1559,14 @@ def getattr_ext(interp, obj: Any, name: str) -> Any:
                 return obj.attrs.get("args", ())
             if name in ("__cause__", "__context__", "__traceback__"):
                 return obj.attrs.get(name)
+            a_ = obj.attrs.get("args", ())
+            if name == "value" and obj.kind == "exc:StopIteration":
+                return a_[0] if a_ else None
+            if name in ("errno", "strerror", "filename") and obj.kind[4:] in ("OSError", "IOError", "FileNotFoundError", "PermissionError", "BlockingIOError", "BrokenPipeError", "ConnectionError", "TimeoutError", "UnsupportedOperation"):
+                idx = {"errno": 0, "strerror": 1, "filename": 2}[name]
+                return a_[idx] if len(a_) > max(idx, 1) else None
+            if name in ("with_traceback", "add_note"):
+                return ExtMethod(obj, "exc", name)
             if name == "__class__":
                 return ExtRef("builtins." + obj.kind[4:])
             if name in obj.attrs:
@@ -1905,6 +2002,8 @@ def call_method(interp, em: ExtMethod, args: list, kwargs: dict) -> Any:
         if em.name == "setter":
             return ExtObj("property_setter", {"prop": em.recv})
         return em.recv
+    if k == "exc":
+        return em.recv if em.name == "with_traceback" else None
     if k == "cached_fn":
         return None
     if k == "logger":
@@ -2032,12 +2131,8 @@ def _dict_method(interp, d: ADict, name: str, args: list, kwargs: dict) -> Any:
         if i is None:
             return args[1] if len(args) > 1 else kwargs.get("default")
         return d.pairs[i][1]
-    if name == "items":
-        return AIter(iter([(k, v) for k, v in d.pairs]), "dict_items")
-    if name == "keys":
-        return AIter(iter([k for k, _ in d.pairs]), "dict_keys")
-    if name == "values":
-        return AIter(iter([v for _, v in d.pairs]), "dict_values")
+    if name in ("items", "keys", "values"):
+        return ExtObj("dict_view", {"d": d, "what": name})
     if name == "update":
         _mut(interp, d, "update")
         if args:
@@ -2124,6 +2219,49 @@ def _set_method(interp, s: ASet, name: str, args: list, kwargs: dict) -> Any:
         return None
     if name == "__contains__":
         return interp.contains(s, args[0])
+    import ast as _ast
+
+    def as_set(x: Any) -> ASet:
+        if isinstance(x, ASet):
+            return x
+        out = ASet([])
+        for y in interp.drain(x):
+            if not interp.truth(interp.contains(out, y), "set-build"):
+                out.items.append(y)
+        return out
+
+    binops = {"union": _ast.BitOr, "intersection": _ast.BitAnd, "difference": _ast.Sub, "symmetric_difference": _ast.BitXor}
+    if name in binops:
+        acc = ASet(list(s.items), frozen=s.frozen)
+        for a in args:
+            acc = interp.binop(binops[name], acc, as_set(a))
+        return acc
+    inplace = {"update": _ast.BitOr, "intersection_update": _ast.BitAnd, "difference_update": _ast.Sub, "symmetric_difference_update": _ast.BitXor}
+    if name in inplace:
+        if s.frozen:
+            raise interp.exc("AttributeError", f"'frozenset' object has no attribute '{name}'")
+        _mut(interp, s, name)
+        for a in args:
+            s.items[:] = interp.binop(inplace[name], ASet(list(s.items)), as_set(a)).items
+        return None
+    if name == "issubset":
+        return interp.compare(_ast.LtE, s, as_set(args[0]))
+    if name == "issuperset":
+        return interp.compare(_ast.GtE, s, as_set(args[0]))
+    if name == "isdisjoint":
+        return not interp.binop(_ast.BitAnd, s, as_set(args[0])).items
+    if name == "copy":
+        return ASet(list(s.items), frozen=s.frozen)
+    if name == "clear" and not s.frozen:
+        _mut(interp, s, "clear")
+        s.items.clear()
+        return None
+    if name == "pop" and not s.frozen:
+        _mut(interp, s, "pop")
+        if not s.items:
+            raise interp.exc("KeyError", "pop from an empty set")
+        interp.emit("set_iteration", uid=s.uid)
+        return s.items.pop(0)
     raise interp.unsupported(f"set method {name}")
 
 
@@ -2674,7 +2812,24 @@ def ext_base_len(interp, obj: Obj, eb: ExtRef) -> Any:
 # ----------------------------------------------------------------------------- misc protocol hooks
 
 
+def view_items(v: ExtObj) -> list:
+    d, what = v.attrs["d"], v.attrs["what"]
+    if what == "keys":
+        return [k for k, _ in d.pairs]
+    if what == "values":
+        return [x for _, x in d.pairs]
+    return [(k, x) for k, x in d.pairs]
+
+
 def iter_ext(interp, v: Any) -> Any:
+    if isinstance(v, ExtObj) and v.kind == "dict_view":
+        return AIter(iter(view_items(v)), "dict_" + v.attrs["what"])
+    if isinstance(v, ExtObj) and v.kind == "collections.ChainMap":
+        return interp.get_iter(call_method(interp, ExtMethod(v, "collections.ChainMap", "keys"), [], {}))
+    if isinstance(v, ExtObj) and v.kind == "io.host":
+        raise interp.unsupported("line iteration over a byte stream")
+    if isinstance(v, (FuncRef, BoundMethod, ClassInfo)):
+        raise interp.exc("TypeError", f"{v!r} object is not iterable")
     if isinstance(v, ExtObj) and v.kind.startswith("rdflib"):
         from . import models_rdflib
 
@@ -2700,6 +2855,8 @@ def truth_ext(interp, v: ExtObj, tag: str) -> bool:
         return models_rdflib.truth(interp, v, tag)
     if v.kind == "bytes:header":
         return bool(v.attrs["data"])
+    if v.kind == "dict_view":
+        return bool(v.attrs["d"].pairs)
     if v.kind == "bytes:chunk":
         return v.attrs.get("data") != b""
     if v.kind in ("bytes:frame", "bytes:all", "bytes:encoded"):
@@ -2729,6 +2886,10 @@ def contains_ext(interp, container: Any, item: Any) -> Any:
         raise interp.exc("TypeError", "argument of type 'NoneType' is not iterable")
     if isinstance(container, ExtObj) and container.kind == "globals-dict" and container.attrs.get("module") and isinstance(item, str):
         return item in interp.module_ns(container.attrs["module"])
+    if isinstance(container, ExtObj) and container.kind == "dict_view":
+        if container.attrs["what"] == "keys":
+            return interp.contains(container.attrs["d"], item)
+        return interp.contains(tuple(view_items(container)), item)
     if isinstance(container, ExtObj) and container.kind == "collections.ChainMap":
         return any(interp.truth(interp.contains(m_, item), "ChainMap.in") for m_ in container.attrs["maps"].items)
     if isinstance(container, (str, bytes)) and isinstance(item, type(container)):
